@@ -78,6 +78,40 @@ def vh(args, timeout=1200, stdin=None, env=None):
         raise ToolError(f"vh {' '.join(map(str, args))}: no JSON summary")
 
 
+def merge_summaries(parts):
+    """Merge the JSON summaries of several harness processes that shared one case list."""
+    out = {}
+    for d in parts:
+        for k, v in d.items():
+            if k == "violations" or k == "samples":
+                out.setdefault(k, []).extend(v)
+            elif k == "violation_counts":
+                vc = out.setdefault(k, {})
+                for kk, n in v.items():
+                    vc[kk] = vc.get(kk, 0) + n
+            elif isinstance(v, bool):
+                out[k] = out.get(k, True) and v
+            elif isinstance(v, (int, float)):
+                # per-item ratios are measurements, everything else is a counter
+                out[k] = max(out.get(k, 0), v) if k.startswith("peak_ratio") or k.startswith("corpus_items") else out.get(k, 0) + v
+            else:
+                out.setdefault(k, v)
+    out["samples"] = out.get("samples", [])[:4]
+    return out
+
+
+def vh_parallel(verb, module, cases, wd, jobs=8, extra=(), timeout=3000):
+    """Replay `cases` with `jobs` harness processes (round-robin split); returns the merged summary."""
+    from concurrent.futures import ThreadPoolExecutor
+    jobs = max(1, min(jobs, len(cases)))
+    paths = []
+    for j in range(jobs):
+        paths.append(write_ndjson(os.path.join(wd, f"cases-{j}.ndjson"), cases[j::jobs]))
+    with ThreadPoolExecutor(max_workers=jobs) as ex:
+        parts = list(ex.map(lambda pth: vh([verb, module, pth] + list(extra), timeout=timeout), paths))
+    return merge_summaries(parts)
+
+
 # --------------------------------------------------------------------------
 # TLC
 # --------------------------------------------------------------------------
